@@ -2,11 +2,15 @@
 import math
 
 from harness import common as C
+from translate import c08 as T08
 
 ID = 'C08'
 PROPS_V = 'C08/Props.v'
 LEVEL = 'proof'
 TRUSTED = [
+    'translate/c08.py: ast extraction of the index / comparison / constant arithmetic of bspline.py (77 expressions of '
+    '__init__, intrv, bsplvn, action, value, fit, maskpoints, cholesky_band, iterfit) into coq/Generated/BSpline.v; '
+    'BSpline/GenBridge.v + the Cxx_generated_* obligations prove that the hand-written reference models are built from exactly these',
     'hand-written models coq/BSpline/Eval.v (knots_of_option, intrv, bsplvn, action_ranges, value) -- tied to '
     'bspline.__init__/intrv/bsplvn/action/value by the correspondence run only (no translator)',
     'numpy argsort / fancy indexing (the sorting permutation is observed and passed to the model)',
@@ -23,6 +27,10 @@ ASSUMPTIONS = [
     'KnotsProofs.knots_everyn_single; model and code agree on that degenerate case)',
     'order 1 at an interior knot: the value is convention dependent; the specification accepts either one-sided value',
 ]
+
+def translate(ctx):
+    return {'BSpline': T08.regenerate(C)}
+
 
 HEADER = '''From Coq Require Import QArith ZArith List. Import ListNotations.
 From PV Require Import BSpline.Eval C08.Model. Open Scope Q_scope.'''
